@@ -3,7 +3,7 @@ import signal
 
 from simkit.core import Result, h64
 from simkit.kernel import Sim, current_task
-from worlds import master
+from worlds import master, worker as W
 
 ID = "C11"
 LEVEL = "exploration"
@@ -12,10 +12,11 @@ QUICK_RUNS = 16000
 THOROUGH_MIN_RUNS = 30000
 BATCH = 100
 CASE_WALL_S = 60.0
+ISOLATE = True      # every run in a forked child: no interpreter state leaks from one simulated server to the next
 RULE = ("two case families.  master (W4): the real Arbiter.run() with 1-3 scripted stub workers whose heartbeat patterns are "
         "drawn per worker: regular with gaps just under `timeout` (boundary), "
         "stops at time t (blocked application), hangs during boot, SIGSTOPped by the environment, ignores SIGABRT, exits on "
-        "SIGABRT; timeout in {0, 1, 2, 3, 5}; wall-clock steps on time.time() in the master as a fault; oracle two-sided: "
+        "SIGABRT; timeout in {0, 1, 2, 3, 5}; wall-clock steps on time.time() in the master and signal storms (USR1/WINCH every 0.2-0.7 s) as faults; oracle two-sided: "
         "no kill while the silence is <= timeout; ABRT within timeout + 3 s of the last beat, KILL within 3 s more if still "
         "alive, pool back to size afterwards, healthy workers keep beating.  worker (W3): see checks/c11 worker family "
         "(real SyncWorker / ThreadWorker loops: maximum simulated gap between notify() calls < timeout for request "
@@ -34,7 +35,89 @@ COMPONENTS = {"real": ["Arbiter.run/murder_workers/kill_worker/reap_workers/mana
               "stub": ["kernel", "worker run loop (scripted heartbeat patterns)"]}
 
 
+def make_worker_case(index, rng, tier):
+    timeout = rng.choice([1, 2, 3, 4, 6])
+    kind = rng.choice(["sync", "gthread"])
+    clients = []
+    t = 0.1
+    for i in range(rng.randrange(0, 7)):
+        d = round(rng.choice([0.0, 0.0, 0.3, 0.6, 0.9, 0.97]) * timeout, 3)
+        clients.append({"t": round(t, 2), "dur": d})
+        t += rng.uniform(0.05, 1.5 * timeout)
+    sat = None
+    if kind == "gthread" and rng.randrange(3) == 0:
+        # every connection slot held by an idle keep-alive client for longer than the timeout: the worker is idle, not hung
+        n = rng.randrange(1, 3)
+        sat = {"n": n, "keepalive": timeout + rng.choice([1, 2, 3])}
+    return {"family": "worker", "kind": kind, "timeout": timeout, "clients": clients, "threads": rng.randrange(1, 3), "saturate": sat,
+            "keepalive": rng.choice([0, 2]), "buggify": {"short_recv": rng.randrange(4) == 0, "spurious_select": rng.randrange(4) == 0}}
+
+
+def run_worker(case, choices):
+    res = Result()
+    sim = Sim(choices, max_steps=200000, max_time=300.0)
+    sim.buggify = dict(case["buggify"])
+    T = case["timeout"]
+    kind = case["kind"]
+    sat = case.get("saturate")
+    w = W.WorkerWorld(sim, kind, {"timeout": T, "graceful_timeout": 2, "keepalive": sat["keepalive"] if sat else case["keepalive"],
+                                  "threads": case["threads"] if not sat else max(case["threads"], 1),
+                                  "worker_connections": (sat["n"] + case["threads"]) if sat else 10})
+    p = w.start_worker()
+    if sat:
+        # max_keepalived = worker_connections - threads = n idle keep-alive connections are allowed; they fill ... the rest of
+        # the slots is taken by further idle connections that never send anything
+        for i in range(sat["n"]):
+            w.add_client("k%d" % i, [["wait", 0.2 + 0.05 * i], ["connect"], ["send", "GET /a HTTP/1.1\r\nHost: h\r\n\r\n"], ["recv", 30.0],
+                                     ["await-eof", 60.0]])
+        for i in range(case["threads"]):
+            w.add_client("s%d" % i, [["wait", 0.5 + 0.05 * i], ["connect"], ["await-eof", 60.0]])
+        sim.probe("worker_saturated_by_idle_connections")
+    beats = []
+
+    def observer(s, actor, kind_, detail):
+        if kind_ == "utime" and actor == "worker":
+            beats.append(s.now)
+    sim.observers.append(observer)
+    cl = []
+    for i, c in enumerate(case["clients"]):
+        path = "/sleep/%s" % c["dur"] if c["dur"] else "/a"
+        cl.append(w.add_client("c%d" % i, [["wait", c["t"]], ["connect"], ["send", "GET %s HTTP/1.1\r\nHost: h\r\nConnection: close\r\n\r\n" % path],
+                                           ["recv", 60.0]]))
+    t_end = max([c["t"] + c["dur"] for c in case["clients"]] + [0.0]) + 3.0 * T + 2.0 + (sat["keepalive"] if sat else 0)
+    ctx = lambda: "family=worker kind=%s timeout=%s (worker wait bound %s) threads=%d clients=%r t=%.2f" % (
+        kind, T, T / 2.0, case["threads"], case["clients"], sim.now)
+    try:
+        sim.run(until=lambda: sim.now >= t_end or p.state != "running")
+        if sim.crash:
+            raise W.HarnessError(sim.crash)
+        if p.state != "running":
+            res.violate("C11:worker:%s:exited" % kind, "the worker exited (%r) by itself; boot_error=%r; %s" % (p.status, w.boot_error, ctx()))
+        gaps = [b - a for a, b in zip(beats, beats[1:])]
+        if beats:
+            gaps.append(sim.now - beats[-1])
+        worst = max(gaps) if gaps else sim.now
+        sim.probe("worker_side_runs")
+        if worst >= T - 1e-6:
+            i = gaps.index(worst)
+            res.violate("C11:worker:%s:heartbeat-gap>=timeout:timeout=%s" % (kind, T),
+                        "the %s worker went %.3f s without notify() (from t=%.3f) although every request is shorter than timeout=%s: "
+                        "the master would kill this healthy worker; %s" % (kind, worst, beats[i] if i < len(beats) else -1, T, ctx()))
+        res.nontrivial = True
+        res.sim_s = sim.now
+        res.faults.update(sim.faults)
+        res.probes.update(sim.probes)
+        res.states.add(h64("worker", kind, T, len(case["clients"]), round(worst / T, 1)))
+        res.from_log(sim.log)
+        res.sample = {"family": "worker", "kind": kind, "timeout": T, "clients": case["clients"][:4], "beats": len(beats), "max_gap": round(worst, 3)}
+    finally:
+        sim.shutdown()
+    return res
+
+
 def make_case(index, rng, tier):
+    if index % 3 == 2:
+        return make_worker_case(index, rng, tier)
     timeout = rng.choice([0, 1, 2, 3, 3, 5])
     n = rng.randrange(1, 4)
     scripts = {}
@@ -67,12 +150,17 @@ def make_case(index, rng, tier):
             events.append({"t": round(rng.uniform(0.5, 5.0), 2), "do": "stop", "which": i})
     if rng.randrange(4) == 0:
         events.append({"t": round(rng.uniform(0.5, 8.0), 2), "do": "clockstep", "by": rng.choice([3600.0, -3600.0, 86400.0])})
+    if rng.randrange(4) == 0:
+        # the master is woken more often than once per loop period (USR1 / WINCH are harmless to it)
+        events.append({"t": 0.5, "do": "storm", "every": rng.choice([0.2, 0.3, 0.45, 0.7]), "sig": rng.choice(["USR1", "WINCH"])})
     return {"timeout": timeout, "workers": n, "scripts": scripts, "kinds": kinds, "events": events,
             "buggify": {"fork_child_first": rng.randrange(2) == 0, "spurious_select": rng.randrange(3) == 0,
                         "random_spawn_delay": rng.randrange(2) == 0}}
 
 
 def run(case, choices):
+    if case.get("family") == "worker":
+        return run_worker(case, choices)
     res = Result()
     sim = Sim(choices, max_steps=80000, max_time=300.0)
     sim.buggify = dict(case["buggify"])
@@ -136,13 +224,19 @@ def run(case, choices):
                 pid = pids[e["which"] % len(pids)]
                 sim.fault("worker_sigstop")
                 master.send_signal(sim, pid, signal.SIGSTOP)
+        elif e["do"] == "storm":
+            if m.state == "running" and sim.now < horizon - 1.0:
+                if int(signal.SIGCHLD) in m.handlers:
+                    sim.fault("master_signal_storm")
+                    master.send_signal(sim, m.pid, getattr(signal, "SIG" + e["sig"]))
+                sim.after(e["every"], lambda e=e: do_event(e))
         elif e["do"] == "clockstep":
             m.wall_offset = getattr(m, "wall_offset", 0.0) + e["by"]
             sim.fault("master_wall_clock_step")
-    for e in case["events"]:
-        sim.after(e["t"], (lambda e=e: do_event(e)))
     t_eff = timeout or 2
     horizon = 6.0 + 2 * t_eff + 8.0
+    for e in case["events"]:
+        sim.after(e["t"], (lambda e=e: do_event(e)))
     try:
         why = sim.run(until=lambda: sim.now >= horizon or m.state != "running")
         ctx = lambda: "timeout=%s kinds=%r scripts=%r events=%r t=%.2f" % (timeout, case["kinds"], case["scripts"], case["events"], sim.now)
@@ -213,6 +307,10 @@ def run(case, choices):
 
 
 def shrink(case):
+    if case.get("family") == "worker":
+        for i in range(len(case["clients"])):
+            yield dict(case, clients=case["clients"][:i] + case["clients"][i + 1:])
+        return
     for i in range(len(case["events"])):
         yield dict(case, events=case["events"][:i] + case["events"][i + 1:])
     for k in sorted(case["scripts"]):
